@@ -46,6 +46,12 @@ def valueResolve (name : Bytes) : Bytes :=
   else if name = symBytes "tiny" then symBytes "0.00001"
   else if name = symBytes "fn" then symBytes "abs(-1)"
   else if name = symBytes "mid" then symBytes "16777217.000000001"
+  -- names ending in digit+e: the `-` after them is an operator, not an exponent sign
+  else if name = symBytes "a1e" then symBytes "5"
+  else if name = symBytes "r2e" then symBytes "3"
+  else if name = symBytes "x.1e" then symBytes "7"
+  else if name = symBytes "a#1e" then symBytes "9"
+  else if name = symBytes "rate" then symBytes "1.5"
   else []
 
 def optSym : Option Op → String
